@@ -1819,7 +1819,18 @@ fn model_sequence(w: &World) {
         _ => return,
     };
     // Pattern of signed (true) / unsigned (false) messages.
-    let pattern: Vec<bool> = match sim::draw("mseq.pattern", 7) {
+    // (Pattern 7: a verified first answer, a few unsigned messages, then a
+    // message that names the right key and algorithm but carries a wrong
+    // MAC - and nothing after it. The forgery is rejected and does not close
+    // the run of unsigned messages: done() fails.)
+    let pat = sim::draw("mseq.pattern", 8);
+    let forged_tail = pat == 7;
+    let pattern: Vec<bool> = match pat {
+        7 => {
+            let mut p = vec![true];
+            p.extend(vec![false; 1 + sim::draw("mseq.unsigned_before_forgery", 5) as usize]);
+            p
+        }
         0 => vec![true; 1 + sim::draw("mseq.n", 6) as usize],
         1 => {
             // every k-th signed
@@ -1925,6 +1936,23 @@ fn model_sequence(w: &World) {
                 return;
             }
         }
+    }
+    if forged_tail {
+        sim::stat("fault.forged_signed_message_behind_unsigned_ones");
+        let plain = build_msg(id, "zone.example.", 1, 30, true).as_slice().to_vec();
+        let t_s = w.now_s(pattern.len() as u64 / 10);
+        let t_c = w.now_c(pattern.len() as u64 / 10);
+        let (genuine, _) = model_sign(&w.mk, &plain, Prefix::Running(&prior, &pending_unsigned), t_s, w.fudge, 0, &[]);
+        let forged = mutate(&genuine, &Mutation::MacFlip);
+        let mut dm = Message::from_octets(forged).unwrap();
+        if cseq.answer(&mut dm, t48(t_c)).is_ok() {
+            viol("soundness", "client-model-seq-accepted/forged-mac".into(), "a message with a flipped MAC bit behind a run of unsigned messages was accepted".into());
+            return;
+        }
+        if cseq.done().is_ok() {
+            viol("soundness", "done-accepts-a-run-of-unsigned-messages-closed-by-a-forgery".into(), format!("{} unsigned messages followed by a message with a wrong MAC (rejected): done() accepted the sequence although no verified message closed the run", pattern.len() - 1));
+        }
+        return;
     }
     let last_signed = *pattern.last().unwrap();
     match (cseq.done(), last_signed) {
